@@ -6,7 +6,7 @@ import json
 import numpy as np
 import pandas as pd
 
-from harness import k_api, xh
+from harness import C17, k_api, xh
 from harness.common import contains, eqv
 from harness.k_transform import NAN, contiguous_groupings
 from symx import Obligation, Sym, Violation
@@ -227,7 +227,10 @@ def obligations(tier):
     api = k_api.obligation(tier, {"C06"}, "O6.3 end to end: on the concrete witness of every explored path the fitted object survives real json.dumps/loads + load_carver/load_discretizer: same transform, same summary, same re-serialisation",
                            ["BinaryCarver", "ContinuousCarver", "Discretizer"], ns=[4], max_pats=4 if quick else 14, companions=True)
     api.twin_every = 1
-    return [
+    edited = C17.obligations(tier, prefix="O6.5")  # manually edited groups (update_discretizer), incl. dropna=False objects: JSON round trip on the witness of every sampled path
+    for ob in edited:
+        ob.twin_every = 1
+    return edited + [
         Obligation(name="O6.2 values_orders dump/rebuild: order, content, merged NaN and the inf leader are restored (symbolic numeric leaders; json.dumps/loads as a structural contract stub)",
                    harness=h_plumbing, jobs=pj, encodes=["serialization.json_serialize_values_orders", "serialization.json_deserialize_values_orders", "serialization.convert_values_to_base_types",
                                                         "serialization.convert_values_to_numpy_types", "serialization.convert_value_to_base_type", "serialization.convert_value_to_numpy_type", "GroupedList.__init__(dict)"],
